@@ -1141,7 +1141,7 @@ func genExtraFail(rt *rapid.T) [][]int {
 
 // TestPropRestartSession: local histories, session mode; stop after every store op, failure at every store op.
 func TestPropRestartSession(t *testing.T) {
-	vstat.Checks(700, 14000)
+	vstat.Checks(600, 12000)
 	rapid.Check(t, func(rt *rapid.T) {
 		cs := genCase(rt, "session", wRestart, 14, 3)
 		explore(t, rt, cs, true, true, genExtraFail(rt))
